@@ -1,8 +1,8 @@
 SPECIFICATION Spec
 CONSTANTS
-  Progs <- ThoroughProgs
-  MaxV = 4
-  CopyThrows = {0}
+  Progs <- QuickProgs
+  MaxV = 3
+  CopyThrows = {1, 2}
   CopyUnderMutex = TRUE
   CancelUnlocks = TRUE
 VIEW View
